@@ -137,9 +137,18 @@ func (s RefSpec) Dst(n plumbing.ReferenceName) plumbing.ReferenceName {
 // Reverse returns the RefSpec with source and destination swapped.
 func (s RefSpec) Reverse() RefSpec {
 	spec := string(s)
+
+	// The force marker belongs to the refspec, not to its source: keep it in
+	// front instead of letting it end up inside the new destination.
+	var force string
+	if strings.HasPrefix(spec, refSpecForce) {
+		force = refSpecForce
+		spec = spec[len(refSpecForce):]
+	}
+
 	before, after, _ := strings.Cut(spec, refSpecSeparator)
 
-	return RefSpec(after + refSpecSeparator + before)
+	return RefSpec(force + after + refSpecSeparator + before)
 }
 
 func (s RefSpec) String() string {
